@@ -343,9 +343,17 @@ let cmd_engine (args : sx list) : sx =
       let cpl = if want 'c' then [A "complete"; bool_sx (cert_complete (char_entails N.eqb) (char_refutes N.eqb) a cs pres)] else [] in
       let tgt = if want 't' then [A "tight"; bool_sx (s_keys_tight a cs)] else [] in
       let tgt = tgt @ (if want 'u' then
-         let sl = compute_slab (char_ceqb N.eqb) (char_refutes N.eqb) a in
-         [A "slab"; bool_sx (slab_ok (char_ceqb N.eqb) (char_refutes N.eqb) a sl); A "unamb"; bool_sx (cert_unamb (char_ceqb N.eqb) (char_refutes N.eqb) a sl);
-          A "vdet"; bool_sx (accept_vdet a sl); A "eroot"; bool_sx (empty_keys_at_root a && empty_pattern_keys a cs); A "esc"; bool_sx (empty_scope_closed a)] else []) in
+         (* the labelling is an untrusted candidate: retry with more alternatives per state
+            when the verified checkers reject the one computed with fewer *)
+         let try_cap cap =
+           let sl = compute_slab_cap (char_ceqb N.eqb) (char_refutes N.eqb) (nat_of_int cap) a in
+           (slab_ok (char_ceqb N.eqb) (char_refutes N.eqb) a sl, cert_unamb (char_ceqb N.eqb) (char_refutes N.eqb) a sl, accept_vdet a sl) in
+         let rec go caps last = match caps with
+           | [] -> last
+           | c :: rest -> let (x, y, z) as r = try_cap c in if x && y && z then r else go rest r in
+         let (slab_b, unamb_b, vdet_b) = go [12; 64; 400; 3000] (false, false, false) in
+         [A "slab"; bool_sx slab_b; A "unamb"; bool_sx unamb_b;
+          A "vdet"; bool_sx vdet_b; A "eroot"; bool_sx (empty_keys_at_root a && empty_pattern_keys a cs); A "esc"; bool_sx (empty_scope_closed a)] else []) in
       L (wf @ snd_ @ cpl @ tgt)
   | [A "cert"; A "mat"; A which; aut; pats; present] ->
       let a = sx_automaton sx_mkey (sx_ccons sx_mkey) aut in
